@@ -19,6 +19,7 @@ pub struct Violation {
 
 #[derive(Clone, Debug, Default)]
 pub struct Stats {
+    pub replay_deferred_by_window: u32,
     pub partial_writes: u32,
     pub cancels: u32,
     pub faults: u32,
@@ -129,6 +130,9 @@ pub struct Model<'a> {
     unflushed_acks: Vec<Owed>,
     expect_delivery: Option<usize>,
     handle_flight: Vec<Option<usize>>,
+    /// (request, session epoch) behind each handle: binds the handle to its flight once the packet
+    /// is transmitted later than the operation that returned it
+    handle_req: Vec<Option<(usize, u32)>>,
     cur_op: Option<usize>,
     op_rejects: Vec<u8>,
     /// C11 state per transport: index of the op that killed the handle + touches at that time
@@ -185,6 +189,7 @@ impl<'a> Model<'a> {
             unflushed_acks: Vec::new(),
             expect_delivery: None,
             handle_flight: Vec::new(),
+            handle_req: Vec::new(),
             cur_op: None,
             op_rejects: Vec::new(),
             dead: vec![None; ntr],
@@ -452,7 +457,10 @@ impl<'a> Model<'a> {
         }
         // an accepted request must have been put on the wire by the time the operation returns
         if let Some(r) = rec.request {
-            if res.is_done_ok() && !self.req_matched[r] && !self.trs[tr].hostile && self.dead[tr].is_none() {
+            // (an identifier-bearing request may be queued behind a retransmission that waits for
+            // room in a Receive Maximum window smaller than on the previous connection)
+            let queued_behind_replay = matches!(res, OpRes::Handle(_)) && self.deferred_by_window(tr).is_some();
+            if res.is_done_ok() && !self.req_matched[r] && !self.trs[tr].hostile && self.dead[tr].is_none() && !queued_behind_replay {
                 self.bad("C09", format!("C09/accepted-request-not-on-wire/{kind:?}"), format!("op {op} ({kind:?}) returned {res:?} but no matching packet was transmitted"));
             }
         }
@@ -461,11 +469,15 @@ impl<'a> Model<'a> {
             while self.handle_flight.len() <= h {
                 self.handle_flight.push(None);
             }
+            while self.handle_req.len() <= h {
+                self.handle_req.push(None);
+            }
+            self.handle_req[h] = rec.request.map(|r| (r, self.epoch));
             let fl = rec.request.and_then(|r| self.flights.iter().position(|f| f.req == Some(r)));
             match fl {
                 Some(f) => self.handle_flight[h] = Some(f),
                 None => {
-                    if !self.trs[tr].hostile {
+                    if !self.trs[tr].hostile && self.deferred_by_window(tr).is_none() {
                         self.bad("C18", "C18/handle-without-packet", format!("op {op} returned a handle but no matching packet was transmitted during the operation"));
                     }
                 }
@@ -485,6 +497,42 @@ impl<'a> Model<'a> {
         self.v.trace.inbound.iter().any(|p| p.tr == tr && p.packet.is_none())
     }
 
+    /// Sequence number of the first PUBLISH whose retransmission on resumed transport `tr` is
+    /// (legitimately) waiting for room in the broker's Receive Maximum window, if any.
+    fn deferred_by_window(&self, tr: usize) -> Option<usize> {
+        if self.trs[tr].connected != Some(true) {
+            return None;
+        }
+        let on_wire = self
+            .unresolved()
+            .filter(|(_, f)| matches!(f.kind, FKind::Pub1 | FKind::Pub2) && (f.tx_here > 0 || matches!(f.phase, Phase::Released { .. })))
+            .count() as u32;
+        if on_wire < self.trs[tr].rm {
+            return None;
+        }
+        let first_flight = self
+            .unresolved()
+            .filter(|(_, f)| matches!(f.kind, FKind::Pub1 | FKind::Pub2) && f.phase == Phase::AwaitAck && f.tx_here == 0 && f.first_tr != tr)
+            .map(|(_, f)| f.seq)
+            .min();
+        if first_flight.is_some() {
+            return first_flight;
+        }
+        // a QoS>0 publish taken on an earlier connection that never reached the wire (its write
+        // failed or it was cancelled) is retained as well and waits for the window like a replay;
+        // it was accepted after everything that has been transmitted
+        let queued = self.v.trace.requests.iter().enumerate().any(|(ri, r)| {
+            !self.req_matched[ri]
+                && r.op >= self.epoch_first_op
+                && r.op < self.ops_started
+                && self.cur_op != Some(r.op)
+                && self.v.trace.ops[r.op].tr != tr
+                && matches!(&r.packet, Some(Packet::Publish(pb)) if pb.qos > 0)
+                && !matches!(&self.v.trace.ops[r.op].res, OpRes::Err(e) if Self::is_refusal(e))
+        });
+        queued.then_some(usize::MAX)
+    }
+
     fn on_idle(&mut self, tr: usize, op: usize) {
         self.stats.idle_points += 1;
         let t = &self.trs[tr];
@@ -502,7 +550,21 @@ impl<'a> Model<'a> {
                 })
                 .map(|(_, f)| (f.pid, f.kind, f.phase))
                 .collect();
+            // A resumed session may hold more unresolved publishes than this CONNACK's Receive
+            // Maximum allows (the broker announced a smaller one than before): then C06 forbids
+            // retransmitting them all at once, and everything accepted after the first deferred
+            // PUBLISH may wait behind it (order, C02/C05). PUBRELs are never deferred.
+            let first_deferred = self.deferred_by_window(tr);
+            if first_deferred.is_some() {
+                self.stats.replay_deferred_by_window += 1;
+            }
             for (pid, kind, phase) in missing {
+                if let Some(fd) = first_deferred {
+                    let seq = self.unresolved().find(|(_, f)| f.pid == pid).map(|(_, f)| f.seq);
+                    if phase == Phase::AwaitAck && seq.is_some_and(|q| q >= fd) {
+                        continue;
+                    }
+                }
                 let (prop, what) = match (kind, phase) {
                     (_, Phase::Released { .. }) => ("C03", "PUBREL"),
                     (FKind::Pub1, _) => ("C02", "PUBLISH-QoS1"),
@@ -1224,7 +1286,21 @@ impl<'a> Model<'a> {
                 self.bad("C18", "C18/predicates-not-exclusive", format!("handle {h}: pending/complete/invalidated = {bits:03b}"));
                 continue;
             }
-            let Some(Some(fi)) = self.handle_flight.get(h) else { continue };
+            if let (Some(None), Some(Some((r, _)))) = (self.handle_flight.get(h), self.handle_req.get(h)) {
+                if let Some(fi) = self.flights.iter().position(|f| f.req == Some(*r)) {
+                    self.handle_flight[h] = Some(fi);
+                }
+            }
+            let Some(Some(fi)) = self.handle_flight.get(h) else {
+                // accepted, still queued: pending until the session is replaced
+                if let Some(Some((_, ep))) = self.handle_req.get(h) {
+                    let want = if *ep != self.epoch { HStatus::Invalidated } else { HStatus::Pending };
+                    if *st != want && !hostile {
+                        self.bad("C18", format!("C18/status/{:?}-expected-{:?}/queued", st, want), format!("handle {h} (accepted, not yet transmitted): reported {:?}, model says {:?}", st, want));
+                    }
+                }
+                continue;
+            };
             let f = &self.flights[*fi];
             let want = if f.epoch != self.epoch {
                 HStatus::Invalidated
